@@ -50,6 +50,11 @@ def generate(rng, tier):
             cases.append({"kind": "x", "s": ref, "via": b, "family": "xml/result-of-an-earlier-call"})
         elif r < 0.18:
             cases[-1]["sub"] = True; cases[-1]["family"] += "/str-subclass"
+    # long texts: dozens to hundreds of special characters (a whole SVG fragment or a log shown as text), every one of them replaced
+    for _ in range(max(6, nx // 60)):
+        k = rng.choice([31, 32, 33, 34, 64, 65, 100, 257, 1000])
+        body = "".join(rng.choice(["&", "<", ">", '"', "'", "&amp;", "a", " ", "<b>", "x=\"1\""]) for _ in range(k))
+        cases.append({"kind": "x", "s": rng.choice(["&" * k, "<" * k, body, body, "'" * k + "&"]), "family": "xml/many-specials/%d" % k})
     bounds = [9.9995, 9.9994999, 10.0, 59.5, 60.5, 59.4999, 3599.5, 3600.5, 3599.4999, 35999.5, 0.0005, 0.0015, 0.0025, 1e7, 9.9996, 61.5, 119.5, 7199.5]
     for _ in range(nh):
         r = rng.random()
